@@ -209,7 +209,8 @@ def version_tables_per_platform(ctx: Ctx, rep: Report, sel=None, rid: str = "R09
             rep.violation("PortName.names", f"protocol={proto} platform={plat}: {sorted(tabs)}", f"platform {plat} selects {bad17[1]} for version major {bad17[2]} only, and platform {bad17[0]} selects that table too: the version test applies outside the platform it belongs to, so {plat} entries of that version are read and written with another platform's names", "cisco_acl/port_name.py", inp=f"Ace('permit {proto} any any eq <a name only {plat} knows>', platform='{plat}', version='{bad17[2][0]}')")
         else:
             rep.ok(f"names() protocol={proto} platform={plat}", f"{len(tabs)} table(s), none shared with another platform for part of the versions", nontrivial=False)
-    rep.floor(6, "protocol x platform selections")
+    if n17 == 0:
+        rep.note(f"{rid} no selection derived (R09.4 reports that) - not judged")
 
 
 def splitter_vocabulary(ctx: Ctx, rep: Report, rid: str = "R09.5", sel=None):
